@@ -278,6 +278,10 @@ func genC05(seed uint64, run int, tier string) Scenario {
 	return sc
 }
 
+// needsDevice: operations that cannot complete from bytes already queued (a get-prompt or a
+// privilege check can: a prompt left over from an earlier exchange answers them truthfully)
+var needsDevice = map[string]bool{"send": true, "sendmulti": true, "netsend": true, "netsendmulti": true, "netconfigs": true, "interactive": true, "netinteractive": true}
+
 func expandC05(base Scenario, res *Result, tier string) []Scenario {
 	b := base.(*Session)
 	if len(res.Violations) > 0 || res.HarnessError != "" || b.BaseEmitted <= 0 || res.Probes["base-infeasible"] > 0 {
@@ -296,6 +300,11 @@ func expandC05(base Scenario, res *Result, tier string) []Scenario {
 		v.F.StallAt = k
 		v.Class = strings.TrimSuffix(b.Class, "/base") + "/stall"
 		v.SchedSeed = r.Uint64()
+		if last := len(v.Ops) - 2; v.Recover && last >= 2 && v.Ops[last+1].Kind == "close" && needsDevice[v.Ops[last].Kind] && r.IntN(3) == 0 {
+			// a second silence, in front of the last operation: whatever the first timeout left
+			// behind, this operation is entitled to its own timeout again
+			v.Ops = append(append(append([]OpSpec(nil), v.Ops[:last]...), OpSpec{Kind: "stall"}), v.Ops[last:]...)
+		}
 		out = append(out, &v)
 	}
 
@@ -349,36 +358,9 @@ func runC05(env *Env, s Scenario) {
 
 		return
 	}
-	victim := -1
-	for i := range sr.Recs {
-		rec := &sr.Recs[i]
-		op := &sc.Ops[i]
-		if rec.Skipped || op.Kind == "close" || op.Kind == "idle" || op.Kind == "resume" {
-			continue
-		}
-		if rec.Panicked {
-			continue // already reported by Call
-		}
-		if rec.Err == nil {
-			if victim >= 0 {
-				continue // exchanges after the first timeout are judged by the recovery clause below
-			}
-			// success must be complete success
-			checkSendResults(env, sr, i, "success-with-wrong-or-partial-output")
-			if op.TimeoutUS < 0 && sr.ResumeT > 0 && rec.End >= sr.ResumeT && sc.F.StallAt >= 0 && rec.Start < sr.ResumeT {
-				env.Probe("zero-timeout-op-waited-for-the-device")
-				if rec.End-rec.Start < 3*sc.connTimeout() {
-					env.Fail("zero-timeout-not-maximum", "", "op %d with timeout 0 returned after %v although the device only resumed at %v", i, rec.End-rec.Start, sr.ResumeT-rec.Start)
-				}
-			}
-
-			continue
-		}
-		if victim >= 0 {
-			// after recovery every further exchange must succeed (checked below)
-			continue
-		}
-		victim = i
+	// judgeTimeout: operation i failed while the device was silent: error class and the time it took
+	judgeTimeout := func(i int) {
+		rec, op := &sr.Recs[i], &sc.Ops[i]
 		eff := sc.EffTimeout(op)
 		if op.Kind == "getprompt" {
 			eff = sc.connTimeout()
@@ -390,7 +372,7 @@ func runC05(env *Env, s Scenario) {
 		if op.TimeoutUS < 0 {
 			env.Fail("zero-timeout-op-failed", "", "op %d (%s) with timeout 0 (= maximum) failed with %v after %v", i, op.Kind, rec.Err, rec.End-rec.Start)
 
-			continue
+			return
 		}
 		if !wantClass[rec.Class] {
 			env.Fail("wrong-error-class", "", "op %d (%s) failed with %q (class %s) when the device stalled; want a timeout error", i, op.Kind, rec.Err, rec.Class)
@@ -441,6 +423,38 @@ func runC05(env *Env, s Scenario) {
 			env.Probe("per-op-timeout-override-applied")
 		}
 	}
+	victim := -1
+	for i := range sr.Recs {
+		rec := &sr.Recs[i]
+		op := &sc.Ops[i]
+		if rec.Skipped || op.Kind == "close" || op.Kind == "idle" || op.Kind == "resume" || op.Kind == "stall" {
+			continue
+		}
+		if rec.Panicked {
+			continue // already reported by Call
+		}
+		if rec.Err == nil {
+			if victim >= 0 {
+				continue // exchanges after the first timeout are judged by the recovery clause below
+			}
+			// success must be complete success
+			checkSendResults(env, sr, i, "success-with-wrong-or-partial-output")
+			if op.TimeoutUS < 0 && sr.ResumeT > 0 && rec.End >= sr.ResumeT && sc.F.StallAt >= 0 && rec.Start < sr.ResumeT {
+				env.Probe("zero-timeout-op-waited-for-the-device")
+				if rec.End-rec.Start < 3*sc.connTimeout() {
+					env.Fail("zero-timeout-not-maximum", "", "op %d with timeout 0 returned after %v although the device only resumed at %v", i, rec.End-rec.Start, sr.ResumeT-rec.Start)
+				}
+			}
+
+			continue
+		}
+		if victim >= 0 {
+			// after recovery every further exchange must succeed (checked below)
+			continue
+		}
+		victim = i
+		judgeTimeout(i)
+	}
 	if victim >= 0 {
 		env.Probe("victim:" + sc.Ops[victim].Kind)
 	}
@@ -456,6 +470,20 @@ func runC05(env *Env, s Scenario) {
 			for i := victim + 1; i < len(sr.Recs); i++ {
 				rec := &sr.Recs[i]
 				op := &sc.Ops[i]
+				if op.Kind == "stall" {
+					// the device falls silent a second time: the operation behind it is entitled
+					// to its own timeout, whatever the first timeout left behind
+					if j := i + 1; j < len(sr.Recs) && !sr.Recs[j].Skipped && !sr.Recs[j].Panicked && sc.Ops[j].Kind != "close" {
+						env.Probe("second-stall-checked")
+						if sr.Recs[j].Err == nil {
+							env.Fail("success-while-the-device-is-silent", "", "op %d (%s) reported success although the device had gone silent again before it", j, sc.Ops[j].Kind)
+						} else {
+							judgeTimeout(j)
+						}
+					}
+
+					break
+				}
 				if rec.Skipped || rec.Panicked || op.Kind == "close" {
 					continue
 				}
